@@ -42,6 +42,9 @@ R_re2      == [k |-> "re",    n |-> "re",       a |-> 0, text |-> "re=" \o RePat
 \* a cross-field group rule (its clause is written after all per-field clauses of the call)
 R_either   == [k |-> "either", n |-> "either",  a |-> 0, text |-> "either=1", key |-> "either", val |-> "1", msg |-> "", lab |-> ""]
 
+\* an empty item of a rule list (two separators in a row): carries no rule, must be skipped without any side effect
+R_empty    == [k |-> "empty", n |-> "", a |-> 0, text |-> "", key |-> "", val |-> "", msg |-> "", lab |-> ""]
+
 JoinText(rs) == IF rs = <<>> THEN "" ELSE FoldLeft(LAMBDA acc, r : acc \o "," \o r.text, rs[1].text, Tail(rs))
 
 \* functions registered globally before any call starts (SetCustomerValidFn)
@@ -146,7 +149,7 @@ Menu12 == <<
   DStruct("m04", "T1", "valid", ValsA("T1")[3], <<TE("T1", <<RME("B", <<R_ge(2)>>)>>)>>, <<>>, <<"p_t4">>),
   DStruct("m05", "T2", "valid", ValsB("T2")[1], TypedOf("T2"), <<>>, <<"p_t1">>),
   DStruct("m06", "T2", "a",     ValsB("T2")[2], <<>>, <<>>, <<>>),
-  DVar("m07", I(7), <<R_ge(2), R_le(5), R_fn("p_t1")>>, <<>>),
+  DVar("m07", I(7), <<R_ge(2), R_empty, R_le(5), R_fn("p_t1")>>, <<>>),
   DVar("m08", Sab, <<R_req, R_re, R_fn("p_t1")>>, <<"p_t1">>),
   DMap("m09", <<E("k1", I(3)), E("k2", I(0))>>, <<RME("k1", <<R_ge(4), R_fn("p_t2")>>), RME("k2", <<R_req>>)>>, <<"p_t2">>),
   DUrl("m10", <<E("u1", Szz), E("u2", Se), E("u3", Sab)>>,
@@ -154,7 +157,9 @@ Menu12 == <<
   DSplit("m11", <<R_req, R_re, R_fn("p_t4")>>),
   DParse("m12", R_rem("only a or b")),
   DStruct("m13", "T4", "valid", ValsC("T4")[1], <<>>, <<>>, <<>>),      \* either group violated and A missing: two clauses
-  DStruct("m14", "T4", "valid", ValsC("T4")[2], <<>>, <<>>, <<>>) >>    \* group satisfied, A missing: one clause
+  DStruct("m14", "T4", "valid", ValsC("T4")[2], <<>>, <<>>, <<>>),      \* group satisfied, A missing: one clause
+  \* a nil root pointer handed over together with rule sets and functions: the call ends early with one error
+  DStruct("m15", "T1", "valid", NilPtr("T1"), <<>>, UnscopedOf("T1"), <<"p_t6">>) >>
 
 (* the product family used by the concurrent streams *)
 NT == Len(RootTypes)
@@ -237,6 +242,7 @@ EvRule(cfg, obj, fname, depth, fv, r) ==
          IF Zero(fv) THEN <<Cl(VPath(obj, fname), IF r.msg = "" THEN "required" ELSE "custom", r.msg, "")>>
          ELSE Desc(cfg, obj, fname, depth, fv)
     [] r.k = "exist" -> IF Zero(fv) THEN <<>> ELSE Desc(cfg, obj, fname, depth, fv)
+    [] r.k = "empty" -> <<>>
     [] r.k = "either" -> <<>>                       \* member registered; judged at the end of the call (EvGroups)
     [] r.k = "ge" -> IF Zero(fv) \/ fv.n >= r.a THEN <<>> ELSE <<Cl(VPath(obj, fname), "lt", ToString(r.a), EchoOf(fv))>>
     [] r.k = "le" -> IF Zero(fv) \/ fv.n <= r.a THEN <<>> ELSE <<Cl(VPath(obj, fname), "gt", ToString(r.a), EchoOf(fv))>>
@@ -257,7 +263,9 @@ EvGroups(cfg, T, v) ==
 
 MapField(k) == "map[" \o k \o "]"
 Eval(d, cfg) ==
-  CASE d.car = "struct" -> EvObj(cfg, d.T, Types[d.T].name, 0, d.val) \o EvGroups(cfg, d.T, d.val)
+  CASE d.car = "struct" /\ d.val.k = "nilptr" ->        \* a nil root pointer: one error, nothing walked (fix 00f6dc3)
+         <<Cl("", "other", "src \"*main." \o Types[d.T].name \o "\" is nil", "")>>
+    [] d.car = "struct" -> EvObj(cfg, d.T, Types[d.T].name, 0, d.val) \o EvGroups(cfg, d.T, d.val)
     [] d.car = "var"    -> EvRules(cfg, "", "", 0, d.val, RMGet(cfg.unscoped, "validVar"))
     [] d.car = "map"    -> FlattenSeq([i \in 1..Len(d.entries) |->
                               EvRules(cfg, "", MapField(d.entries[i].k), 0, d.entries[i].v, RMGet(cfg.unscoped, d.entries[i].k))])
